@@ -105,7 +105,38 @@ func (c *Ctx) ruleDetachedData(rule string) {
 			return false
 		}
 		sl := dv.sliceDeep(v, fr)
-		return sl[contentP] || sl[oidP]
+		if sl[contentP] || sl[oidP] {
+			return true
+		}
+		// a flag kept in a variable: where it is set may depend on the assumed
+		// values (a switch over them that assigns true or false)
+		for x := range sl {
+			ld, ok := x.(*ssa.UnOp)
+			if !ok || ld.Op != token.MUL {
+				continue
+			}
+			a, isA := cellOf(ld.X).(*ssa.Alloc)
+			if !isA || a.Parent() == nil {
+				continue
+			}
+			for _, f := range withAnon(topFn(a.Parent())) {
+				for _, b := range f.Blocks {
+					for _, in := range b.Instrs {
+						st, isSt := in.(*ssa.Store)
+						if !isSt || cellOf(st.Addr) != ssa.Value(a) {
+							continue
+						}
+						for _, ce := range ir.DominatingConds(f, b) {
+							cs := c.sliceOf(ce.RawCond)
+							if cs[contentP] || cs[oidP] {
+								return true
+							}
+						}
+					}
+				}
+			}
+		}
+		return false
 	}
 	// the embedding sits in nested builder continuations: it is reached when its
 	// block is reached in its function, the call that runs that function is
@@ -142,8 +173,8 @@ const evalLimit = 4000
 // boolEval walks a function from its entry and follows the branches whose
 // conditions evaluate to a known truth value under a set of assumed atoms.
 type boolEval struct {
-	dv    *deepView
-	atom  func(v ssa.Value, fr *frame) (val bool, known bool)
+	dv   *deepView
+	atom func(v ssa.Value, fr *frame) (val bool, known bool)
 	// related: the condition depends on the values the assumptions are about
 	related func(v ssa.Value, fr *frame) bool
 	steps   int
